@@ -8,6 +8,7 @@
     counters (tie). Not proved (measured by the monitor, and said so): the linear bound on the
     work, and that the arena-based tree of grammar.rs (where re-appending a cached node
     detaches it from its previous parent) reads back as the immutable tree of the model. *)
+From Oal Require PegTerm GrammarTerm.
 From Oal Require Import Peg Grammar PegProofs GrammarProofs.
 Local Open Scope nat_scope.
 
@@ -42,3 +43,11 @@ Theorem C12_memo_hits_example :
                /\ leaves t = [0; 2; 4; 6; 8; 10; 11; 13; 15].
 Proof. exact oal_parse_example. Qed.
 Print Assumptions C12_memo_hits_example.
+
+(** the recursion depth of the parser is linear in the number of tokens: this much fuel always suffices,
+    for the plain and for the memoising parser *)
+Theorem C12_parser_fuel_linear : forall (toks : list N) n,
+  (length toks * (S GrammarTerm.OR * S GrammarTerm.OZ) + S (GrammarTerm.orank P_PROGRAM) * S GrammarTerm.OZ + 1 <= n)%nat ->
+  parse_pure n toks <> Fuel /\ fst (parse_memo n toks) <> Fuel.
+Proof. exact GrammarTerm.oal_parsers_terminate. Qed.
+Print Assumptions C12_parser_fuel_linear.
